@@ -2,9 +2,13 @@ package props
 
 import (
 	"bytes"
-	"go/types"
 	"fmt"
+	"go/types"
+	"os"
+	"path/filepath"
+	"regexp"
 	"sort"
+	"strconv"
 	"strings"
 	"time"
 
@@ -147,6 +151,34 @@ func init() {
 			if tier == "thorough" {
 				ns = append(ns, 47, 64, 70)
 			}
+			// bounds derived from the code: every immediate k (3..64) that a vector kernel's assembly compares
+			// or steps its length with (unroll factors, size thresholds) adds the lengths k-1, k, k+1, 2k, 2k+1
+			hints := asmLengthHints()
+			for k, hs := range hints {
+				for _, n := range hs {
+					if containsInt(ns, n) {
+						continue
+					}
+					switch {
+					case k <= 1:
+						for _, ov := range []int{0, 1, 2} {
+							jobs = append(jobs, mk("H_C07_vec", eq, "none", "k", k, "n", n, "ov", ov))
+						}
+					case k <= 3:
+						jobs = append(jobs, mk("H_C07_vec", eq, "none", "k", k, "n", n, "ov", 0), mk("H_C07_vec", eq, "none", "k", k, "n", n, "ov", 1))
+					case k <= 5:
+						for _, sh := range []int{0, 1, 18} {
+							jobs = append(jobs, mk("H_C07_vec", eq, "none", "k", k, "n", n, "s", sh, "ov", 0), mk("H_C07_vec", eq, "none", "k", k, "n", n, "s", sh, "ov", 1),
+								mk("H_C07_vec", eq, "none", "k", k, "n", n, "s", sh, "ov", 8-k)) // shl: z one word above x (4); shr: z one word below x (3)
+						}
+					default:
+						jobs = append(jobs, mk("H_C07_vec", eq, "none", "k", k, "n", n, "ov", 0))
+						if k != 6 {
+							jobs = append(jobs, mk("H_C07_vec", eq, "none", "k", k, "n", n, "ov", 1))
+						}
+					}
+				}
+			}
 			for _, n := range ns {
 				for _, k := range []int{0, 1} { // add10VV sub10VV: disjoint, z==x, z==y
 					for _, ov := range []int{0, 1, 2} {
@@ -220,7 +252,7 @@ func init() {
 			return v, p
 		},
 		Bounds: map[string]string{
-			"quick":    "equivalence assembly == Go twin (output vector, return value, no access outside the slices, DIVQ operands in range): add10VV/sub10VV lengths 0..9 x {disjoint, z is x, z is y}; add10VW/sub10VW 0..9 x {disjoint, in place} incl. the early-exit copy paths; shl10VU/shr10VU 0..9 x shifts {0,1,9,18} x {disjoint, in place, shifted overlap as used by dec.shl/dec.shr}; addMul10VVW/mulAdd10VWW/div10VWW 0..6; divWVW (arith_amd64.s) 0..6; mul10WW, div10WW, div10W. Definitions: every Go twin against its arithmetic contract for lengths {0,1,2,3,5}; all 18 rows of the division-by-constant table for every 64-bit operand; decDigits64. All word values under the kernels' preconditions. Build configurations: every non-wrapper function has identical SSA under the default and the pure-Go tag sets.",
+			"quick":    "lengths 0..9 for every vector kernel PLUS lengths derived from the code: every immediate k in 3..64 that a kernel's assembly compares or steps with (unroll factors, size thresholds) adds the lengths k-1, k, k+1, 2k, 2k+1 for that kernel (on the pinned tree the only such constant is the unroll factor 4, already inside 0..9). equivalence assembly == Go twin (output vector, return value, no access outside the slices, DIVQ operands in range): add10VV/sub10VV lengths 0..9 x {disjoint, z is x, z is y}; add10VW/sub10VW 0..9 x {disjoint, in place} incl. the early-exit copy paths; shl10VU/shr10VU 0..9 x shifts {0,1,9,18} x {disjoint, in place, shifted overlap as used by dec.shl/dec.shr}; addMul10VVW/mulAdd10VWW/div10VWW 0..6; divWVW (arith_amd64.s) 0..6; mul10WW, div10WW, div10W. Definitions: every Go twin against its arithmetic contract for lengths {0,1,2,3,5}; all 18 rows of the division-by-constant table for every 64-bit operand; decDigits64. All word values under the kernels' preconditions. Build configurations: every non-wrapper function has identical SSA under the default and the pure-Go tag sets.",
 			"thorough": "lengths 0..9, then 12,13,16,17,...,40 and 47, 64, 70 for the additive kernels; all shifts 0..18; multiplicative kernels up to 12.",
 		},
 		Outside: []string{
@@ -235,3 +267,71 @@ func init() {
 }
 
 func init() { _ = fmt.Sprint }
+
+func containsInt(l []int, v int) bool {
+	for _, x := range l {
+		if x == v {
+			return true
+		}
+	}
+	return false
+}
+
+var asmImm = regexp.MustCompile(`\$(\d+)\b`)
+
+// asmLengthHints reads /repo's dec_arith_amd64.s and returns, per vector kernel index (the k of
+// H_C07_vec), the vector lengths suggested by the immediates 3..64 used in that kernel's TEXT block.
+func asmLengthHints() map[int][]int {
+	idx := map[string]int{"add10VV": 0, "sub10VV": 1, "add10VW": 2, "sub10VW": 3, "shl10VU": 4, "shr10VU": 5, "mulAdd10VWW": 6, "addMul10VVW": 7, "div10VWW": 8}
+	out := map[int][]int{}
+	b, err := os.ReadFile(filepath.Join(RepoDir(), "dec_arith_amd64.s"))
+	if err != nil {
+		return out
+	}
+	cur := -1
+	for _, line := range strings.Split(string(b), "\n") {
+		if i := strings.Index(line, "//"); i >= 0 {
+			line = line[:i]
+		}
+		if strings.HasPrefix(line, "TEXT ") {
+			cur = -1
+			for name, k := range idx {
+				if strings.Contains(line, "·"+name+"(SB)") {
+					cur = k
+				}
+			}
+			continue
+		}
+		if cur < 0 {
+			continue
+		}
+		f := strings.Fields(line)
+		if len(f) == 0 {
+			continue
+		}
+		op := strings.TrimSuffix(f[0], ":")
+		if len(f) > 1 && strings.HasSuffix(f[0], ":") {
+			op = f[1]
+		}
+		switch op {
+		case "CMPQ", "SUBQ", "ANDQ", "TESTQ", "ADDQ", "SHRQ", "CMPL", "LEAQ":
+		default:
+			continue
+		}
+		for _, m := range asmImm.FindAllStringSubmatch(line, -1) {
+			v, _ := strconv.Atoi(m[1])
+			if v < 3 || v > 64 {
+				continue
+			}
+			for _, n := range []int{v - 1, v, v + 1, 2 * v, 2*v + 1} {
+				if n <= 70 && !containsInt(out[cur], n) {
+					out[cur] = append(out[cur], n)
+				}
+			}
+		}
+	}
+	for k := range out {
+		sort.Ints(out[k])
+	}
+	return out
+}
